@@ -132,7 +132,7 @@ def diff_form(e, varname):
     return None
 
 
-HANDED, GAPW, REMOVED = -1, -2, -3
+HANDED, GAPW, REMOVED, CONFIRMED, BADHAND, BADMOVE = -1, -2, -3, -4, -5, -6
 
 
 def rule_M7(chk, u, cls="TaskQueue", array="_queue", gap_chk=None, gap_rule="Q4"):
@@ -209,7 +209,7 @@ def rule_M7(chk, u, cls="TaskQueue", array="_queue", gap_chk=None, gap_rule="Q4"
         for p in m["params"]:
             if "unsigned" in (p.get("t") or "") and "id" in p:
                 locs[p["id"]] = "%s#p" % p["n"]
-        names = ["0", size_member] + sorted(members) + sorted(locs.values()) + ["g#"]
+        names = ["0", size_member] + sorted(members) + sorted(locs.values()) + ["g#", "c#"] + ["%s@0" % mm_ for mm_ in sorted(members)]
 
         def varname(e, locs=locs):
             e = C.strip_casts(e)
@@ -224,6 +224,8 @@ def rule_M7(chk, u, cls="TaskQueue", array="_queue", gap_chk=None, gap_rule="Q4"
             z0.add("0", v, 0)                 # unsigned: v >= 0
         for mem in members:
             z0.add(mem, size_member, 0)       # class invariant: fill counter <= size
+            z0.add(mem, "%s@0" % mem, 0)      # ghost: the value of the fill counter at entry
+            z0.add("%s@0" % mem, mem, 0)
         writes_array = any(x.get("k") == "Bin" and x.get("op") == "=" and C.strip_casts(x["a"]).get("k") == "Idx" and
                            C.member_name(C.strip_casts(x["a"])["a"]) == array for x in C.walk_stmt(m["body"]))
         removes = any((x.get("k") == "Un" and x.get("op") in ("pre--", "post--") and C.member_name(x["x"]) in members) or
@@ -260,6 +262,19 @@ def rule_M7(chk, u, cls="TaskQueue", array="_queue", gap_chk=None, gap_rule="Q4"
             z0 = zj0
             done_private.add(mname)
         z0 = z0.close()
+        entry_of = {}
+        for st_ in C.walk_stmt(m["body"]):
+            if st_.get("k") == "Decl":
+                for d_ in st_["d"]:
+                    i0_ = C.strip_casts(d_["init"]) if d_.get("init") is not None else None
+                    if i0_ is not None and i0_.get("k") == "Idx" and C.member_name(i0_["a"]) == array:
+                        entry_of[d_["id"]] = i0_["i"]
+        entry_candidates = set()
+        for st_ in C.walk_stmt(m["body"]):
+            if st_.get("k") == "Call" and st_.get("n") == "lock_dependency":
+                for y_ in C.walk(st_):
+                    if y_.get("k") == "Ref" and y_.get("id") in entry_of:
+                        entry_candidates.add(y_["id"])
         flag_ids = set()
         for node in g.nodes:
             if node.kind == "decl":
@@ -309,6 +324,10 @@ def rule_M7(chk, u, cls="TaskQueue", array="_queue", gap_chk=None, gap_rule="Q4"
                     z.add(b[0], a[0], -d)
                 elif op == "!=" and b[0] == "0" and a[1] == 0 and b[1] == 0:
                     z.add("0", a[0], -1)      # unsigned x != 0  ->  x >= 1
+                elif op == "!=":
+                    zc0 = z.copy().close()
+                    if zc0 is None or (zc0.bound(a[0], b[0]) <= d and zc0.bound(b[0], a[0]) <= -d):
+                        return None           # the two sides are known to be equal
                 return z.close()
             if k in ("Ref", "Mem") and varname(e):
                 if truth:
@@ -340,15 +359,74 @@ def rule_M7(chk, u, cls="TaskQueue", array="_queue", gap_chk=None, gap_rule="Q4"
                 return (v,) if v is not None else (True, False)
             return (True, False)
 
+        def lock_position(e):
+            """(variable, constant) of e' when e is `tasks[queue[e']].lock_dependency()`, else None"""
+            e0 = C.strip_casts(e) if e is not None else None
+            if e0 is not None and e0.get("k") == "Call" and e0.get("n") == "lock_dependency":
+                for y_ in C.walk(e0):
+                    if y_.get("k") == "Idx" and C.member_name(y_["a"]) == array:
+                        return lin(y_["i"], varname)
+                # through a local holding the entry: candidate = queue[e']; tasks[candidate].lock_dependency()
+                for y_ in C.walk(e0):
+                    if y_.get("k") == "Ref" and y_.get("id") in entry_of:
+                        return lin(entry_of[y_["id"]], varname)
+            return None
+
+        def handed(fs, zz, lg):
+            """flag sets after the hand-out read at position lg: confirmed and equal to the confirmed position?"""
+            out_ = []
+            zc_ = zz.copy().close()
+            same = zc_ is not None and zc_.bound(lg[0], "c#") <= -lg[1] and zc_.bound("c#", lg[0]) <= lg[1]
+            for f in fs:
+                f = set_flag(set_flag(f, HANDED, True), GAPW, False)
+                if not (dict(f).get(CONFIRMED) and same):
+                    f = set_flag(f, BADHAND, True)
+                out_.append(f)
+            return out_
+
         def transfer(node, z, flags):
             ast = node.ast
             if node.kind == "branch" and ast is not None and ast.get("k") != "RangeHasNext":
                 outs = []
+                # a counter stepped inside the test (`i-- > 0`): compare the old value, then step
+                stepped = []
+                ast_cmp = ast
+                a0_ = C.strip_casts(ast)
+                if a0_.get("k") == "Bin" and a0_["op"] in ("<", ">", "<=", ">=", "==", "!="):
+                    la_ = C.strip_casts(a0_["a"])
+                    if la_.get("k") == "Un" and la_.get("op") in ("post--", "post++") and varname(la_["x"]):
+                        stepped.append((varname(la_["x"]), -1 if "--" in la_["op"] else 1))
+                        ast_cmp = dict(a0_)
+                        ast_cmp["a"] = la_["x"]
+                # a successful lock_dependency() on queue[e] confirms position e
+                conf_pos = None
+                inner_ = C.strip_casts(ast)
+                neg_ = False
+                while inner_.get("k") == "Un" and inner_.get("op") == "!":
+                    inner_ = C.strip_casts(inner_["x"])
+                    neg_ = not neg_
+                conf_pos = lock_position(inner_)
                 for t in (True, False):
-                    zz = guard(z, ast, t, flags)
+                    zz = guard(z, ast_cmp, t, flags)
                     if zz is None:
                         continue
+                    if stepped:
+                        zz = zz.copy()
+                        for v_, dlt_ in stepped:
+                            if dlt_ < 0 and not t:
+                                zz.forget(v_)            # an unsigned counter stepped below zero: not used afterwards
+                                zz.add("0", v_, 0)
+                            else:
+                                zz.assign(v_, v_, dlt_)
+                        zz = zz.close()
+                        if zz is None:
+                            continue
                     f2 = flags
+                    if conf_pos is not None and (t != neg_):
+                        zz = zz.copy()
+                        zz.assign("c#", conf_pos[0], conf_pos[1])
+                        zz = zz.close()
+                        f2 = set_flag(f2, CONFIRMED, True)
                     if flag_of(ast) is not None:
                         f2 = set_flag(flags, flag_of(ast), t)
                     elif C.strip_casts(ast).get("k") == "Un" and C.strip_casts(ast)["op"] == "!" and \
@@ -365,9 +443,9 @@ def rule_M7(chk, u, cls="TaskQueue", array="_queue", gap_chk=None, gap_rule="Q4"
                         i0_ = C.strip_casts(d["init"]) if d.get("init") is not None else None
                         if i0_ is not None and i0_.get("k") == "Idx" and C.member_name(i0_["a"]) == array:
                             lg = lin(i0_["i"], varname)
-                            if lg is not None:
+                            if lg is not None and d["id"] not in entry_candidates:
                                 z.assign("g#", lg[0], lg[1])
-                                flagsets = [set_flag(set_flag(f, HANDED, True), GAPW, False) for f in flagsets]
+                                flagsets = handed(flagsets, z, lg)
                         if d["id"] in locs:
                             v = locs[d["id"]]
                             z.forget(v)
@@ -378,7 +456,12 @@ def rule_M7(chk, u, cls="TaskQueue", array="_queue", gap_chk=None, gap_rule="Q4"
                                     z.assign(v, l[0], l[1])
                         elif d["id"] in flag_ids:
                             vals = flag_values(d.get("init"), flags) if d.get("init") is not None else (True, False)
-                            flagsets = [set_flag(f, d["id"], v) for f in flagsets for v in vals]
+                            cp_ = lock_position(d.get("init"))
+                            if cp_ is not None:
+                                z.assign("c#", cp_[0], cp_[1])
+                                flagsets = [set_flag(set_flag(f, d["id"], v), CONFIRMED, v) for f in flagsets for v in (True, False)]
+                            else:
+                                flagsets = [set_flag(f, d["id"], v) for f in flagsets for v in vals]
                 else:
                     for x in C.walk(body):
                         kk = x.get("k")
@@ -396,16 +479,46 @@ def rule_M7(chk, u, cls="TaskQueue", array="_queue", gap_chk=None, gap_rule="Q4"
                             lg = lin(C.strip_casts(x["b"])["i"], varname)
                             if lg is not None:
                                 z.assign("g#", lg[0], lg[1])
-                                flagsets = [set_flag(set_flag(f, HANDED, True), GAPW, False) for f in flagsets]
+                                flagsets = handed(flagsets, z, lg)
+                            v = varname(x["a"])
+                            if v:
+                                z.forget(v)
+                                z.add("0", v, 0)
+                        elif kk == "Bin" and x.get("op") == "=" and C.strip_casts(x["b"]).get("k") == "Ref" and \
+                                C.strip_casts(x["b"]).get("id") in entry_candidates and C.strip_casts(x["a"]).get("k") == "Ref":
+                            # `task = candidate`: the candidate entry becomes the hand-out
+                            lg = lin(entry_of[C.strip_casts(x["b"])["id"]], varname)
+                            if lg is not None:
+                                z.assign("g#", lg[0], lg[1])
+                                flagsets = handed(flagsets, z, lg)
                             v = varname(x["a"])
                             if v:
                                 z.forget(v)
                                 z.add("0", v, 0)
                         elif kk == "Bin" and x.get("op") == "=" and C.strip_casts(x["a"]).get("k") == "Idx" and \
                                 C.member_name(C.strip_casts(x["a"])["a"]) == array:
+                            # a store into the array before the hand-out read moves entries: the confirmation is void
+                            flagsets = [set_flag(f, CONFIRMED, False) if not dict(f).get(HANDED) and dict(f).get(CONFIRMED) else f
+                                        for f in flagsets]
                             # a store into the array: does it overwrite the handed-out position?
                             l1 = lin(C.strip_casts(x["a"])["i"], varname)
                             zc_ = z.copy().close()
+                            # entries only ever move down by one position (shift), or the old top fills the gap (swap)
+                            src_ = C.strip_casts(x["b"])
+                            if src_.get("k") == "Idx" and C.member_name(src_["a"]) == array and l1 is not None and zc_ is not None and members:
+                                ls_ = lin(src_["i"], varname)
+                                curm_ = sorted(members)[0]
+                                okmove = False
+                                if ls_ is not None:
+                                    dlo, dhi = zc_.bound(ls_[0], l1[0]), zc_.bound(l1[0], ls_[0])      # src - dst bounds
+                                    if dlo + ls_[1] - l1[1] <= 1 and -(dhi) + ls_[1] - l1[1] >= 1:
+                                        okmove = True          # src == dst + 1
+                                    elif zc_.bound(l1[0], "g#") <= -l1[1] and zc_.bound("g#", l1[0]) <= l1[1] and \
+                                            zc_.bound(ls_[0], curm_) <= -ls_[1] and zc_.bound(curm_, ls_[0]) <= ls_[1]:
+                                        okmove = True          # dst == gap and src == fill counter (the entry that left the range)
+                                if not okmove:
+                                    flagsets = [set_flag(f, BADMOVE, True) if dict(f).get(REMOVED) or dict(f).get(HANDED) else f
+                                                for f in flagsets]
                             if l1 is not None and zc_ is not None and zc_.bound(l1[0], "g#") <= -l1[1] and \
                                     zc_.bound("g#", l1[0]) <= l1[1]:
                                 flagsets = [set_flag(f, GAPW, True) if dict(f).get(HANDED) else f for f in flagsets]
@@ -418,7 +531,12 @@ def rule_M7(chk, u, cls="TaskQueue", array="_queue", gap_chk=None, gap_rule="Q4"
                                 flagsets = [set_flag(f, GAPW, True) if dict(f).get(HANDED) else f for f in flagsets]
                         elif kk == "Bin" and x.get("op") == "=" and flag_of(x["a"]) is not None:
                             fid = flag_of(x["a"])
-                            flagsets = [set_flag(f, fid, v) for f in flagsets for v in flag_values(x["b"], f)]
+                            cp_ = lock_position(x["b"])
+                            if cp_ is not None:
+                                z.assign("c#", cp_[0], cp_[1])
+                                flagsets = [set_flag(set_flag(f, fid, v), CONFIRMED, v) for f in flagsets for v in (True, False)]
+                            else:
+                                flagsets = [set_flag(f, fid, v) for f in flagsets for v in flag_values(x["b"], f)]
                         elif kk == "Bin" and x.get("op") in ("=", "+=", "-="):
                             v = varname(x["a"])
                             if not v:
@@ -467,16 +585,46 @@ def rule_M7(chk, u, cls="TaskQueue", array="_queue", gap_chk=None, gap_rule="Q4"
         by_node = {}
         for (nid, flags), z in states.items():
             by_node.setdefault(nid, []).append((flags, z))
+        # Q3: what is handed out was confirmed by lock_dependency() at that very position, and the live range shrinks by exactly
+        # one when something is handed out and not at all otherwise
+        if gap_chk is not None and members and any(dict(f_).get(HANDED) is not None or True for f_, _ in by_node.get(g.exit.id, [])) \
+                and any(x_.get("k") == "Call" and x_.get("n") == "lock_dependency" for x_ in C.walk_stmt(m["body"])):
+            curm = sorted(members)[0]
+            probs = []
+            nparts = 0
+            for flags_, z_ in by_node.get(g.exit.id, []):
+                fd = dict(flags_)
+                nparts += 1
+                zc_ = z_.copy().close()
+                if zc_ is None:
+                    continue
+                if fd.get(BADHAND):
+                    probs.append("an entry is handed out that lock_dependency() did not confirm at that position")
+                if fd.get(HANDED):
+                    if not (zc_.bound(curm, "%s@0" % curm) <= -1 and zc_.bound("%s@0" % curm, curm) <= 1):
+                        probs.append("a task is handed out but the fill counter does not end exactly one below its entry value "
+                                     "(%s - entry in [%s, %s])" % (curm, -zc_.bound("%s@0" % curm, curm), zc_.bound(curm, "%s@0" % curm)))
+                else:
+                    if not (zc_.bound(curm, "%s@0" % curm) <= 0 and zc_.bound("%s@0" % curm, curm) <= 0):
+                        probs.append("nothing is handed out but the fill counter changes")
+            if nparts:
+                gap_chk.require(not probs, "Q3", "%s::%s hands out only an entry whose dependencies it locked at that position, and the "
+                                "live range shrinks by exactly one with it (and not at all otherwise)" % (cls, m["name"]), where(m),
+                                "; ".join(sorted(set(probs))), function=m["full"], construct="hand-out")
         # Q4: an entry that was handed out does not stay in the live range [0, fill counter)
         if gap_chk is not None and members:
             curm = sorted(members)[0]
             bad_gap = None
+            bad_move = False
             nh = 0
             for flags_, z_ in by_node.get(g.exit.id, []):
                 fd = dict(flags_)
                 if not fd.get(HANDED) or not fd.get(REMOVED):
                     continue
                 nh += 1
+                if fd.get(BADMOVE):
+                    bad_gap = z_
+                    bad_move = True
                 if fd.get(GAPW):
                     continue
                 zt = z_.copy()
@@ -486,10 +634,12 @@ def rule_M7(chk, u, cls="TaskQueue", array="_queue", gap_chk=None, gap_rule="Q4"
             if nh:
                 gap_chk.require(bad_gap is None, gap_rule, "%s::%s: the position an entry was handed out from is overwritten whenever it "
                                 "is still inside the live range after the removal" % (cls, m["name"]), where(m),
-                                "there is a path on which the handed-out position g satisfies g <= %s - 1 at the end and was never "
-                                "overwritten (only g - %s <= %s is excluded): the task that was handed out stays in the queue and "
-                                "will be handed out again, and the entry that should have filled the gap is lost" %
-                                (curm, curm, bad_gap.bound("g#", curm) if bad_gap is not None else ""), function=m["full"],
+                                ("an entry is stored from a position that is neither one above its destination (shift) nor the old top "
+                                 "of the queue into the gap (swap): an entry is duplicated and another is lost" if bad_move else
+                                 "there is a path on which the handed-out position g satisfies g <= %s - 1 at the end and was never "
+                                 "overwritten (only g - %s <= %s is excluded): the task that was handed out stays in the queue and "
+                                 "will be handed out again, and the entry that should have filled the gap is lost" %
+                                 (curm, curm, bad_gap.bound("g#", curm) if bad_gap is not None else "")), function=m["full"],
                                 construct="gap closed")
         # call sites of private methods of the class: what the caller knows about the arguments
         for node in g.nodes:
